@@ -2,7 +2,7 @@
 
 use super::common::*;
 use super::*;
-use crate::exec::{self, Wk};
+use crate::exec::{self, Out, Wk};
 use crate::gen::val;
 use crate::glue;
 use crate::report::J;
@@ -101,6 +101,22 @@ fn run(ctx: &mut Ctx) {
             ctx.rep.case(&crate::monitor::hll::hash_bytes(6, &want).to_le_bytes(), want.len() > 12);
             let desc = format!("{:?}", c);
             let base = *ctx.rng.pick(&[65_536usize, 70_000, 0x1_0000_0000, 1 << 40]);
+            // the same encode on a fresh thread with a modest stack, in its body and from
+            // thread-local destructors while it is torn down
+            if ctx.tier != Tier::Miri && ctx.rng.chance(1, 24) {
+                let direct: Out<Vec<u8>> = Out::Ok(want.clone());
+                let cm2 = glue::msg_to_crate(&m).unwrap();
+                thread_env_check(
+                    ctx,
+                    "C06",
+                    &direct,
+                    move || match exec::encode_msg(&cm2, Wk::Vec) {
+                        exec::EncOut::Ok(e) => Out::Ok(e.bytes),
+                        exec::EncOut::Panic(p) => Out::Panic(p),
+                    },
+                    J::obj(vec![("value", J::s(desc.clone())), ("reference_hex", J::hex(&want[..want.len().min(256)]))]),
+                );
+            }
             for wk in [Wk::Vec, Wk::OffsetLenient(base), Wk::WhileUnwinding] {
                 match exec::encode_msg(&cm, wk) {
                     exec::EncOut::Ok(e) => compare(ctx, "control", "msg", &e.bytes, &want, &desc, |at| if at < 2 { "flags".into() } else if at < 4 { "length".into() } else if at < 12 { "header".into() } else { "avps".into() }),
